@@ -508,7 +508,62 @@ fn main() {
                 }
             }
         }
-        let _ = POOLS;
+        // ---- (4) a block range that does not connect to the PRIOR CHAIN STATE it is scanned from:
+        // a fresh wallet (its trees hold nothing yet, as on the first range of a restore or an
+        // out-of-order start) is given the true blocks from height h with a prior state in which one
+        // pool's frontier is empty although the chain's tree is not. The first block's tree-size
+        // metadata then contradicts the state it is supposed to extend: the range must be refused and
+        // leave nothing behind; with the true state the same call succeeds.
+        {
+            use incrementalmerkletree::frontier::Frontier;
+            let (lo, hi_h) = (sim.base_height() + 2, sim.tip_height());
+            let mut tried = 0;
+            for _ in 0..6 {
+                if hi_h <= lo || tried >= 2 || !r.time_left() {
+                    break;
+                }
+                let h = rng.gen_range(lo..=hi_h);
+                let truth = sim.state_at(h - 1);
+                let sizes = sim.sizes_at(h - 1);
+                let cand: Vec<Pool> = POOLS.iter().copied().filter(|p| sizes[p.idx()] > 0).collect();
+                let Some(pool) = cand.choose(&mut rng).copied() else { continue };
+                tried += 1;
+                let bad = ChainState::new(
+                    truth.block_height(),
+                    truth.block_hash(),
+                    if pool == Pool::Sapling { Frontier::empty() } else { truth.final_sapling_tree().clone() },
+                    if pool == Pool::Orchard { Frontier::empty() } else { truth.final_orchard_tree().clone() },
+                    if pool == Pool::Ironwood { Frontier::empty() } else { truth.final_ironwood_tree().clone() },
+                );
+                let src = MemBlockSource::new(&sim.blocks);
+                let mut w2 = WalletUnderTest::new(&sim, WalletConfig { file_backed: false, retention: cfg.retention });
+                let _ = w2.update_chain_tip(hi_h);
+                let before = dump::dump(w2.db.conn(), false).expect("dump");
+                r.count("prior_state_corruptions", 1);
+                r.count(&format!("prior_state_frontier_emptied_{}", pool.name()), 1);
+                match guard(|| w2.scan_from_source_with_state(&sim, &src, h, &bad, 1)) {
+                    Err(p) => r.violation(&format!("C05:scan_cached_blocks:panic:PriorStateFrontierEmptied:{}", pool.name()), p, json!({"hist": hi, "height": h})),
+                    Ok(Ok(_)) => r.violation(
+                        &format!("C05:scan_cached_blocks:accepted:PriorStateFrontierEmptied:{}", pool.name()),
+                        format!("block {h} (tree sizes before it {sizes:?}) was accepted on top of a prior chain state whose {} frontier is empty", pool.name()),
+                        json!({"hist": hi, "height": h}),
+                    ),
+                    Ok(Err(_)) => {
+                        r.count("prior_state_corruptions_rejected", 1);
+                        let after = dump::dump(w2.db.conn(), false).expect("dump");
+                        if after != before {
+                            r.violation(&format!("C05:scan_cached_blocks:partially-applied:PriorStateFrontierEmptied:{}", pool.name()), dump::diff(&before, &after), json!({"hist": hi, "height": h}));
+                        }
+                        // control: the true state is accepted by the same (still fresh) wallet
+                        match guard(|| w2.scan_from_source_with_state(&sim, &src, h, &truth, 1)) {
+                            Ok(Ok(_)) => r.count("prior_state_true_state_accepted", 1),
+                            Ok(Err(e)) => r.violation("C05:scan_cached_blocks:true-prior-state-refused-after-refusing-a-wrong-one", e, json!({"hist": hi, "height": h})),
+                            Err(p) => r.violation("C05:scan_cached_blocks:panic:true-prior-state", p, json!({"hist": hi, "height": h})),
+                        }
+                    }
+                }
+            }
+        }
     }
     r.set_max("max_worker_threads_seen_in_one_scan", max_workers as u64);
     r.finish();
